@@ -8,7 +8,7 @@ From ChiaV.Dl Require Import Format.
 Open Scope N_scope.
 
 Definition kvmap := list (N * (N * bytes)).
-Definition item := (N * N * bytes)%type.     (* key, value, hash *)
+Notation item := (N * N * bytes)%type (only parsing).     (* key, value, hash *)
 
 Fixpoint m_get (k : N) (m : kvmap) : option (N * bytes) :=
   match m with
@@ -41,5 +41,15 @@ Fixpoint m_batch (items : list item) (m : kvmap) : option kvmap :=
   | (k, v, h) :: r => match m_insert k v h m with Some m' => m_batch r m' | None => None end
   end.
 
+(* Vec::pop *)
+Definition pop_last {A} (l : list A) : option (list A * A) :=
+  match rev l with [] => None | x :: r => Some (rev r, x) end.
+
 (* set-level equality of finite maps *)
 Definition m_equiv (a b : kvmap) : Prop := forall k, m_get k a = m_get k b.
+
+Definition mkeys (m : kvmap) : list N := map fst m.
+Definition mhashes (m : kvmap) : list bytes := map (fun e => snd (snd e)) m.
+(* the plain-map invariant: keys and leaf hashes are duplicate-free *)
+Definition m_ok (m : kvmap) : Prop := NoDup (mkeys m) /\ NoDup (mhashes m).
+Definition entry_of (it : item) : N * (N * bytes) := let '(k, v, h) := it in (k, (v, h)).
